@@ -55,7 +55,7 @@ def make_project(R):
         d = R.choice(dirs)
         name = posixpath.join(d, f"doc{k}") if d else f"doc{k}"
         heads = [R.choice(HEADS) for _ in range(R.randint(1, 4))]
-        docs.append({"name": name, "title": f"Title of D{k}", "heads": heads, "label_h": f"lblh-{k}", "label_p": f"lblp-{k}", "label_on": R.randrange(len(heads))})
+        docs.append({"name": name, "title": f"Title of D{k}", "heads": heads, "label_h": R.choice([f"lblh-{k}", f"LblH-{k}", f"LBLH_{k}"]), "label_p": R.choice([f"lblp-{k}", f"Lbl.P-{k}"]), "label_on": R.randrange(len(heads))})
     extra = [posixpath.join(R.choice(dirs), f"data{j}.txt").lstrip("/") for j in range(2)]
     if R.random() < 0.7:
         extra.append(posixpath.join(R.choice(docs)["name"], "inside.txt"))  # a directory with the same name as a document
@@ -216,7 +216,9 @@ def eval_case(ctx, case):
                         exp_id = ids
                         exp_uri = page
                     else:
-                        exp_id, exp_uri = [lk["label"]], page
+                        # ids of the labelled paragraph itself, read from the target document's doctree
+                        tp = next((q for q in b.doctree(lk["to"]).findall(nodes.paragraph) if q.astext().startswith("labelled paragraph of")), None)
+                        exp_id, exp_uri = (list(tp["ids"]) if tp is not None else [nodes.make_id(lk["label"])]), page
                     got_uri, got_id = r.get("refuri"), r.get("refid")
                     if lk.get("self"):
                         ok = (got_id in exp_id) if got_id else (got_uri and got_uri.startswith("#") and got_uri[1:] in exp_id)
